@@ -233,6 +233,19 @@ Definition double_collision (c : case) : bool :=
                                     [get_singular_form sing b; item_fallback b]) colls)%list in
     memb (get_singular_form sing a) taken && memb (item_fallback a) taken) colls.
 
+(* decoration raised: whatever was done before, no user code was replaced (a declaration may
+   already have been lifted, the lazy __new__ hook may be in place) *)
+Definition user_ok_raised (c : case) (d : list (name * oentry)) : bool :=
+  forallb (fun p =>
+    let '(n, m) := p in
+    if reserved n then true else
+    match olookup n d with
+    | Some (OE (EUser m')) => if member_eq_dec m m' then true else false
+    | Some (OE (ELifted m')) => (if member_eq_dec m m' then true else false) && is_decl m
+    | Some (OE (EGen GNewHook _)) => String.eqb n "__new__" && c_lazy (k_cfg c)
+    | _ => false
+    end) (body (k_cls c)).
+
 Definition spec_ok (c : case) : bool :=
   if Z.eqb (o_outcome c) 0 then
     user_ok c true (o_after c) && user_ok c (negb (k_inst c)) (o_used c) &&
@@ -241,8 +254,9 @@ Definition spec_ok (c : case) : bool :=
     spec_names_ok c (o_after c) && spec_names_ok c (o_used c) &&
     private_ok c (o_after c) && private_ok c (o_used c) &&
     item_rule_ok c
-  else if Z.eqb (o_outcome c) (-2) then private_requested (k_cfg c)
-  else if Z.eqb (o_outcome c) (-7) then double_collision c
+  else if Z.eqb (o_outcome c) (-2) then
+    (private_requested (k_cfg c) || contradictory_constructor (k_cfg c)) && user_ok_raised c (o_after c)
+  else if Z.eqb (o_outcome c) (-7) then double_collision c && user_ok_raised c (o_after c)
   else false.
 
 Definition check_case (c : case) : nat :=
